@@ -3,7 +3,7 @@ import collections
 import random
 
 from vf import import_desper
-from vf.core import Res
+from vf.core import Res, HarnessError
 
 ID = 'C07'
 LEVEL = 'exploration'
@@ -70,7 +70,14 @@ def gen_one(rng, tier, scale=False):
                                   ['add', rng.randrange(ncls)]])
             ops.append(['addp', rng.randrange(ncls), prio, reuse, act])
         elif k < (0.6 if not scale else 0.5):
-            ops.append(['rmp', rng.randrange(ncls)])
+            if enabled and not scale and rng.random() < 0.15:
+                # the on_add of the added processor raises; the program
+                # catches the exception and carries on
+                ops.append(['addp_fault', rng.randrange(ncls),
+                            rng.choice(prios) if rng.random() < 0.6
+                            else None])
+            else:
+                ops.append(['rmp', rng.randrange(ncls)])
         elif k < 0.9:
             ops.append(['process'])
         else:
@@ -118,6 +125,10 @@ def run_case(case):
                 log.append(('add', self.uid, args,
                             state['world'].dispatch_enabled,
                             self.world is state['world']))
+                if getattr(self, 'fail_on_add', False):
+                    self.fail_on_add = False
+                    state['fault'] = HarnessError('on_add failed')
+                    raise state['fault']
             ns['on_add'] = on_add
         if 'r' in spec['shape']:
             def on_remove(self, *args):
@@ -212,6 +223,7 @@ def run_case(case):
         del log[:]
         name = op[0]
         want_life = []
+        skip_life = False
         try:
             if name == 'addp':
                 if op[3] is not None and instances:
@@ -248,6 +260,48 @@ def run_case(case):
                     fail(at, 'world-not-set', 'added processor does not know '
                          'its world', 'the world', repr(p.world))
                     break
+            elif name == 'addp_fault':
+                if 'a' not in events[op[1]] or not enabled:
+                    continue
+                p = classes[op[1]]()
+                p.uid = len(instances)
+                p.cls_index = op[1]
+                p.act = None
+                p.fail_on_add = True
+                instances.append(p)
+                t = type(p)
+                readable = p.priority
+                state['fault'] = None
+                try:
+                    w.add_processor(p, op[2]) if op[2] is not None \
+                        else w.add_processor(p)
+                    raised = None
+                except HarnessError as ex:
+                    raised = ex
+                res.stats['on_add_faults'] += 1
+                if raised is None or raised is not state['fault']:
+                    fail(at, 'fault-not-propagated', 'on_add of the added '
+                         'processor raised but add_processor did not '
+                         'propagate it', repr(state['fault']), repr(raised))
+                    break
+                # whether the failed addition stays or is rolled back is
+                # not stated: the model follows what `processors` lists, and
+                # every other view (get_processor, process) must agree
+                if t in by_type:
+                    old = by_type.pop(t)
+                    order[:] = [x for x in order if x[2] is not old]
+                    removed_ever.add(old.uid)
+                if any(x is p for x in w.processors):
+                    prio = op[2] if op[2] is not None else readable
+                    seq += 1
+                    order.append((prio, seq, p))
+                    order.sort(key=lambda x: (x[0], x[1]))
+                    by_type[t] = p
+                    res.tags['failed_add_stays'].add(True)
+                else:
+                    removed_ever.add(p.uid)
+                    res.tags['failed_add_stays'].add(False)
+                skip_life = True
             elif name == 'rmp':
                 t = classes[op[1]]
                 match = [p for ct, p in by_type.items() if issubclass(ct, t)]
@@ -360,6 +414,8 @@ def run_case(case):
                      [], got_life)
                 break
             enabled = op[1]
+        elif skip_life:
+            pass        # a failed addition: its callbacks are not judged
         elif enabled:
             if collections.Counter(got_life) != collections.Counter(want_life):
                 fail(at, 'lifecycle-mismatch', f'{name}: processor on_add/'
